@@ -160,6 +160,27 @@ def check(run, driver):
                 run.prop_fail("the same (exactly representable) numbers in a narrower dtype give a Gaussian information that differs from the closed form beyond 1e-8",
                               {**case, "dtype": np.dtype(dt).name}, {"estimator": "gaussian", "kz": kz, "clause": "closed_form", "regime": "dtype"}, {"float64": base, np.dtype(dt).name: v, "dispatcher": vd, "reference": ref})
                 break
+    # ---- arguments of DIFFERENT dtypes: integer counts in one block next to continuous measurements in the others (each block in turn),
+    #      single next to double precision; the value is that of the same numbers all in float64
+    for it in range(40 if thorough else 14):
+        kx, ky = int(rng.integers(1, 3)), int(rng.integers(1, 3)); kz = int(rng.integers(1, 3)) if it % 3 else 0
+        d = kx + ky + kz; N = int(rng.integers(d + 8, 50))
+        W = rng.standard_normal((N, d)) @ (rng.standard_normal((d, d)) * 0.4 + np.eye(d)) * 3.0
+        blocks = [W[:, :kx].copy(), W[:, kx:kx + ky].copy(), (W[:, kx + ky:].copy() if kz else None)]
+        who = it % (3 if kz else 2)
+        dt = [np.int64, np.int32, np.float32][it % 3] if it % 5 else np.int8
+        blocks[who] = np.round(blocks[who] * 4).astype(dt)          # counts / coarsely quantised readings, exactly representable
+        if d > 1 and np.linalg.cond(np.corrcoef(np.column_stack([b for b in blocks if b is not None]).astype(np.float64).T)) > 1e4:
+            continue
+        f64 = [None if b is None else b.astype(np.float64) for b in blocks]
+        ref = float(ls_reference(*f64)); base = float(gaussian_conditional_mutual_information(*f64))
+        v = float(gaussian_conditional_mutual_information(*blocks)); vd = float(conditional_mutual_information(*blocks, method="gaussian"))
+        vs = float(gaussian_conditional_mutual_information(blocks[1], blocks[0], blocks[2]))
+        case = {"N": N, "kx": kx, "ky": ky, "kz": kz, "narrow_block": "XYZ"[who], "dtype": np.dtype(dt).name, "X": blocks[0], "Y": blocks[1], "Z": blocks[2]}
+        run.case("gaussian-mixed-dtypes", [N, kx, ky, kz, who, np.dtype(dt).name, float(W[0, 0])], True)
+        if not np.isfinite(v) or abs(v - ref) > TOL(ref) or abs(v - base) > TOL(base) or abs(vd - max(0.0, base)) > TOL(base) or abs(vs - base) > TOL(base):
+            run.prop_fail("Gaussian information of blocks with different dtypes differs from the closed form on the same numbers in float64",
+                          case, {"estimator": "gaussian", "kz": kz, "clause": "closed_form", "regime": "mixed-dtype"}, {"float64": base, "mixed": v, "swapped": vs, "dispatcher": vd, "reference": ref})
     # ---- regimes the exact model is too slow for: larger blocks with one shared factor (well conditioned but small determinant)
     #      and columns whose mean is huge compared with their spread; implementation vs the least-squares reference
     for it in range(60 if thorough else 24):
